@@ -1,6 +1,6 @@
 use crate::ast::{BinaryOp, Commented, Expr, RecordEntry, RecordKey, SpannedExpr};
 use crate::ast_to_source::{
-    expr_to_source, format_record_key, lambda_body_needs_parens, needs_parens_in_binop,
+    do_statement_line, expr_to_source, format_record_key, lambda_body_needs_parens, needs_parens_in_binop,
     needs_parens_in_postfix, needs_parens_in_unary, postfix_op_to_source, unary_op_to_source,
 };
 use crate::values::LambdaArg;
@@ -645,7 +645,7 @@ fn format_do_block_multiline(
 
     let mut result = "do {".to_string();
 
-    for stmt in statements {
+    for (index, stmt) in statements.iter().enumerate() {
         // Leading comments
         for comment in &stmt.leading {
             result.push('\n');
@@ -655,7 +655,10 @@ fn format_do_block_multiline(
         // Expression
         result.push('\n');
         result.push_str(&indent_str);
-        result.push_str(&format_expr_impl(&stmt.node, max_cols, inner_indent));
+        result.push_str(&do_statement_line(
+            index,
+            format_expr_impl(&stmt.node, max_cols, inner_indent),
+        ));
         // Trailing comment
         if let Some(trailing) = &stmt.trailing {
             result.push_str("  ");
